@@ -48,7 +48,17 @@ class P:
 
     def accepted(self):
         # exactly the tuples the constructor accepts (proved in unit `ctor`)
-        return And(self.M > 0, self.m > 0, self.m <= self.M, self.s < self.M, self.i0 < self.M)
+        acc = And(self.M > 0, self.m > 0, self.m <= self.M, self.s < self.M, self.i0 < self.M)
+        if CONTEXT == "split":
+            # the tokenizer as split() builds it (proved in unit split): no initial phase
+            acc = And(acc, self.i0 == 0, self.ims == 0)
+        return acc
+
+
+# "split": the tokenizer units are run on behalf of a property about split() (C05, C06): split() builds a fresh tokenizer
+# per call with init_min = init_max_silence = 0, so tokenizer behaviour that needs an initial phase or a reused object
+# is outside those properties
+CONTEXT = None
 
 
 # ---------------------------------------------------------------------------
@@ -796,8 +806,7 @@ def unit_stale_fields(sess, ctx):
         d0 = h.get("_data")
         eng.prove("C20:reinitialize-empties-the-buffer", isinstance(d0, Seq) and d0.kind == "list" and isinstance(d0.n, int) and d0.n == 0,
                   props=tags)
-        if not ok_state or isinstance(d0, Stale):
-            raise PathEnd()
+        # (when one of the two obligations above failed the analysis goes on from the state they describe)
         # any later moment at which the automaton is (still / again) in SILENCE: frame counter arbitrary
         n = Int("n")
         eng.assume(n >= 0)
@@ -915,12 +924,23 @@ def unit_tokenize(sess, ctx):
     return u
 
 
+def _in_context(fn):
+    def run(sess, ctx, opts):
+        global CONTEXT
+        CONTEXT = opts.get("context")
+        try:
+            return fn(sess, ctx, opts)
+        finally:
+            CONTEXT = None
+    return run
+
+
 UNITS = {
     "lemmas": lambda sess, ctx, opts: unit_lemmas(sess),
     "ctor": lambda sess, ctx, opts: unit_ctor(sess, ctx),
-    "process": lambda sess, ctx, opts: unit_process(sess, ctx, opts["active"]),
-    "post_process": lambda sess, ctx, opts: unit_post_process(sess, ctx, opts["active"]),
-    "iter_tokens": lambda sess, ctx, opts: unit_iter_tokens(sess, ctx, opts["active"]),
+    "process": _in_context(lambda sess, ctx, opts: unit_process(sess, ctx, opts["active"])),
+    "post_process": _in_context(lambda sess, ctx, opts: unit_post_process(sess, ctx, opts["active"])),
+    "iter_tokens": _in_context(lambda sess, ctx, opts: unit_iter_tokens(sess, ctx, opts["active"])),
     "tokenize": lambda sess, ctx, opts: unit_tokenize(sess, ctx),
     "stale_fields": lambda sess, ctx, opts: unit_stale_fields(sess, ctx),
 }
